@@ -2,8 +2,9 @@
    binary Z / positive datatypes; the OCaml driver converts from / to binary strings. *)
 Require Import ExtrOcamlBasic.
 From Coq Require Import QArith.
-From SharkV Require Import C03Model C15Model.
+From SharkV Require Import C03Model C15Model C15PcaModel.
 Extraction "c15_model.ml" chunk Qred Qeq_bool Qle_bool Qplus Qmult Qminus Qopp Qdiv
   mean var cov fmin fmax uv_params ui_params affine feat
   lr_grad lr_residual lin center_off gram eig_residual
-  lda_prior lda_mean lda_cov lda_count lda_mean_u lda_cov_u lda_residual lda_bias_part.
+  lda_prior lda_mean lda_cov lda_count lda_mean_u lda_cov_u lda_residual lda_bias_part
+  pca_setdata pca_mean pca_m pca_encoder pca_decoder pca_wh_met.
